@@ -61,3 +61,50 @@ Proof.
   rewrite forallb_forall in H. specialize (H d Hd).
   destruct (aligned_untouched _ _ _ _ _ (tiling_tl _ _ _ _ _ Ht) H Hk Tk) as [A _]. exact A.
 Qed.
+
+(** * The untemplated clause is an instance *)
+Lemma one_patch_ok : forall n r,
+  sdb 0 (map spatch [mkD 0 n 0 n r]) && forallb (aligned 0 0 [TM.mk_ts TM.SLit 0 n 0 n]) [mkD 0 n 0 n r] = true.
+Proof.
+  intros n r. unfold aligned, in_slice, is_lit, mem_key.
+  cbn [map spatch sdb forallb existsb TM.ty TM.stype_eqb TM.s0 TM.s1 TM.t0 TM.t1
+       da db du dv dr p_s p_e p_key andb orb negb].
+  replace (0 <=? 0) with true by reflexivity.
+  replace (0 <=? n) with true by (symmetry; apply N.leb_le; lia).
+  replace (n <=? n) with true by (symmetry; apply N.leb_le; lia).
+  replace (0 =? 0 + (0 - 0)) with true by reflexivity.
+  replace (n =? 0 + (n - 0)) with true by (symmetry; apply N.eqb_eq; lia).
+  reflexivity.
+Qed.
+
+Theorem tree_ok_untemplated : forall tf t,
+  untemplated tf -> spans_file tf t -> root_sfx t = [] ->
+  tree_ok tf [TM.mk_ts TM.SLit 0 (len (src tf)) 0 (len (src tf))] t = true.
+Proof.
+  intros tf t [Ht Hr] Hsp Hsfx. unfold spans_file in Hsp. unfold tree_ok. rewrite Hsp. cbn [t0 t1]. rewrite Ht, !N.eqb_refl. cbn [andb].
+  assert (Hle : (0 <=? len (src tf)) = true) by (apply N.leb_le; lia).
+  destruct t as [b r p | b p sfx cs]; cbn [seg_pos root_sfx] in *; subst p; try subst sfx.
+  - cbn [dpatches t0 t1 s0 s1]. rewrite Hle. cbn [negb]. rewrite Ht, Hr.
+    destruct (str_eqb r (sub (src tf) 0 (len (src tf)))); [reflexivity|].
+    rewrite is_literal_untemplated. apply one_patch_ok.
+  - rewrite dpatches_node. cbn [t0 t1 s0 s1 is_empty]. rewrite Hle. cbn [negb orb]. rewrite Ht, Hr.
+    destruct (str_eqb (flat_map raw cs) (sub (src tf) 0 (len (src tf)))); [reflexivity|].
+    rewrite is_literal_untemplated. apply one_patch_ok.
+Qed.
+
+(** [C04_untemplated] again, now as a corollary of the templated theorem (no placeholder: one literal piece) *)
+Corollary untemplated_from_templated : forall tf t,
+  untemplated tf -> spans_file tf t -> root_sfx t = [] -> fixed_text tf t = raw t.
+Proof.
+  intros tf t Hu Hsp Hsfx.
+  destruct (templated_fixed_text_b tf [TM.mk_ts TM.SLit 0 (len (src tf)) 0 (len (src tf))] t) as [lits [Hl [Hx Hy]]].
+  - destruct Hu as [Ht Hr]. cbn [tilingb TM.s0 TM.s1 TM.t0 TM.t1 is_lit is_templ TM.ty TM.stype_eqb negb orb andb].
+    rewrite Ht. rewrite !N.eqb_refl, N.leb_refl.
+    replace (0 <=? len (src tf)) with true by (symmetry; apply N.leb_le; lia).
+    cbn [andb]. replace (str_eqb (sub (src tf) 0 (len (src tf))) (sub (src tf) 0 (len (src tf)))) with true
+      by (symmetry; apply str_eqb_eq; reflexivity).
+    reflexivity.
+  - apply tree_ok_untemplated; assumption.
+  - unfold render, phs, rds in *. cbn [filter is_templ TM.ty TM.stype_eqb map length] in *.
+    destruct lits as [|l [|l2 lits]]; try discriminate. cbn [weave] in *. congruence.
+Qed.
